@@ -512,6 +512,61 @@ theorem remove_le (id : Nat) (sl : List Elem) (a b : Nat) :
 theorem slHas_iff {id : Nat} {sl : List Elem} : slHas id sl = true ↔ ∃ e, e ∈ sl ∧ e.id = id := by
   simp [slHas, List.any_eq_true]
 
+/-! ### the skip list is sorted, and a sorted list is determined by its elements -/
+
+def Sorted (l : List Elem) : Prop := l.Pairwise (fun x y => x.lt y = true)
+
+theorem lt_trans' {a b c : Elem} (h1 : a.lt b = true) (h2 : b.lt c = true) : a.lt c = true := by
+  simp only [Elem.lt, Bool.or_eq_true, decide_eq_true_eq, Bool.and_eq_true, beq_iff_eq] at *
+  omega
+
+theorem lt_asymm' {a b : Elem} (h1 : a.lt b = true) (h2 : b.lt a = true) : False := by
+  simp only [Elem.lt, Bool.or_eq_true, decide_eq_true_eq, Bool.and_eq_true, beq_iff_eq] at *
+  omega
+
+theorem lt_total' {a b : Elem} (hne : a.id ≠ b.id) (h : ¬ a.lt b = true) : b.lt a = true := by
+  simp only [Elem.lt, Bool.or_eq_true, decide_eq_true_eq, Bool.and_eq_true, beq_iff_eq] at *
+  omega
+
+theorem slInsert_sorted (e : Elem) : ∀ (l : List Elem), Sorted l → (∀ x, x ∈ l → x.id ≠ e.id) →
+    Sorted (slInsert e l) := by
+  intro l
+  induction l with
+  | nil => intro _ _; simp [slInsert, Sorted]
+  | cons x xs ih =>
+    intro hs hne
+    have hs' := List.pairwise_cons.mp hs
+    unfold slInsert
+    split
+    · rename_i hlt
+      refine List.pairwise_cons.mpr ⟨?_, hs⟩
+      intro y hy
+      rcases List.mem_cons.mp hy with rfl | hy'
+      · exact hlt
+      · exact lt_trans' hlt (hs'.1 y hy')
+    · rename_i hlt
+      refine List.pairwise_cons.mpr ⟨?_, ih hs'.2 (fun y hy => hne y (by simp [hy]))⟩
+      intro y hy
+      rcases List.mem_cons.mp ((slInsert_perm e xs).mem_iff.mp hy) with rfl | hy'
+      · exact lt_total' (fun h => hne x (by simp) h.symm) hlt
+      · exact hs'.1 y hy'
+
+theorem slRemove_sorted (id : Nat) (l : List Elem) (h : Sorted l) : Sorted (slRemove id l) :=
+  List.Pairwise.sublist (slRemove_sub id l) h
+
+theorem nodup_of_map_id (l : List Elem) (h : (l.map (·.id)).Nodup) : l.Nodup := by
+  induction l with
+  | nil => exact List.nodup_nil
+  | cons x xs ih =>
+    simp only [List.map_cons, List.nodup_cons] at h ⊢
+    exact ⟨fun hm => h.1 (List.mem_map_of_mem hm), ih h.2⟩
+
+/-- a sorted skip list is determined by the set of its elements -/
+theorem sorted_ext (l₁ l₂ : List Elem) (s₁ : Sorted l₁) (s₂ : Sorted l₂)
+    (n₁ : l₁.Nodup) (n₂ : l₂.Nodup) (h : ∀ e, e ∈ l₁ ↔ e ∈ l₂) : l₁ = l₂ :=
+  List.Perm.eq_of_pairwise (fun _ _ _ _ h1 h2 => (lt_asymm' h1 h2).elim) s₁ s₂
+    ((List.perm_ext_iff_of_nodup n₁ n₂).mpr h)
+
 /-! ### the walk through the top range -/
 
 /-- the width hypothesis for a whole index -/
